@@ -98,6 +98,7 @@ type Chain struct {
 	Height  int64
 	Time    time.Time
 	Absent  map[int]bool // validators (by index) that do not sign the next blocks
+	Tap     func(sdk.Msg, Result) // when set, sees every message RunMsg executed and its outcome (votes cast inside Observe too)
 }
 
 func Fx(n int64) sdkmath.Int { return sdkmath.NewInt(n).MulRaw(1e18) }
@@ -335,6 +336,11 @@ func (r Result) OK() bool { return r.Err == nil && r.Panic == "" }
 func (c *Chain) RunMsg(ctx sdk.Context, msg sdk.Msg) (out Result) {
 	cctx, write := ctx.CacheContext()
 	cctx = cctx.WithEventManager(sdk.NewEventManager())
+	defer func() {
+		if c.Tap != nil {
+			c.Tap(msg, out)
+		}
+	}()
 	defer func() {
 		if r := recover(); r != nil {
 			out = Result{Err: fmt.Errorf("panic: %v", r), Panic: fmt.Sprintf("%v\n%s", r, debug.Stack())}
